@@ -19,6 +19,8 @@ State: `IS` = `RS` plus
 * `zombies`    entries of the running map whose process was found dead (reported nothing) and
                whose future the dead-process loop has not marked yet,
 * `cur`,`curOut` serial runner: the submission popped from the deque and the outcome `run()` gave.
+  The serial save is two primitives (`serialSaveBegin` / `serialSaveEnd`): an interrupt inside
+  `BaseCache.save` runs its cleanup, which deletes the key, including an older entry.
 
 Every primitive is a no-op once `status ≠ running` (an exception is propagating). A `remove` on a
 set that does not hold the element sets `status := raised keyError` (Python's `KeyError`).
@@ -84,8 +86,13 @@ inductive Prim
   | popDeque
   /-- serial `wait`: `run()` (or the load) in the caller -/
   | serialRun
-  /-- serial `wait`: the cache save; an interrupt inside it cleans up = not saved -/
-  | serialSave
+  /-- serial `wait`: `BaseCache.save` begins (only for a job that saves: cacheable type, not
+      loaded from the cache, `run()` succeeded). From here on the entry of that key is ABSENT: an
+      interrupt (or any error) inside `save` runs its cleanup `storage.delete(key)`, which also
+      destroys an entry that was there before (re-execution of a cached key, `bust_cache`) -/
+  | serialSaveBegin
+  /-- serial `wait`: `BaseCache.save` completed, the new entry is written -/
+  | serialSaveEnd
   /-- `ProcessExecutor.cancel`, one pending future: `future.cancel(); del pending[future]` -/
   | cancelOne (t : Tid)
   /-- `SerialRunner.cancel`: `task_submissions.clear()` -/
@@ -110,6 +117,13 @@ def finOf (c : Choice) (running : List Job) : List Job :=
 
 def stayOf (c : Choice) (running : List Job) : List Job :=
   ((enumFrom 0 running).filter (fun ij => !c.finish ij.1)).map (·.2)
+
+/-- the store while a save of `j`'s outcome is in progress: the key's entry is gone -/
+def saveBegin (p : Problem) (store : Store) (j : Job) (o : Outcome) : Store :=
+  match o with
+  | .ok _ => if p.cacheable (p.ty j.tid) && !j.useCache
+             then store.filter (fun kv => kv.1 ≠ j.tid) else store
+  | _ => store
 
 def keyErr (s : IS) : IS := { s with rs := { s.rs with status := .raised .keyError } }
 
@@ -196,7 +210,11 @@ def stepPrim (cfg : Config) (p : Problem) (q : Prim) (s : IS) : IS :=
       { s with curOut := some (runOutcome p rs.ts rs.store j),
                rs := { rs with trace := rs.trace ++ [Ev.start j.tid] ++ runEvents p rs.ts j } }
     | none => s
-  | .serialSave =>
+  | .serialSaveBegin =>
+    match s.cur, s.curOut with
+    | some j, some o => { s with rs := { rs with store := saveBegin p rs.store j o } }
+    | _, _ => s
+  | .serialSaveEnd =>
     match s.cur, s.curOut with
     | some j, some o => { s with rs := { rs with store := saveIfRan p rs.store j o } }
     | _, _ => s
@@ -289,7 +307,7 @@ def waitPrims (cfg : Config) (p : Problem) (req : List Tid) (c : Choice) (s : IS
     match s.rs.queued with
     | [] => [.popDeque]
     | j :: _ =>
-      let a := [Prim.popDeque, Prim.serialRun, Prim.serialSave]
+      let a := [Prim.popDeque, Prim.serialRun, Prim.serialSaveBegin, Prim.serialSaveEnd]
       let o := runOutcome p s.rs.ts s.rs.store { j with snap := some s.rs.results }
       let b := a ++ [Prim.popFuture j.tid (some o)]
       b ++ yieldPrims cfg req s.rs.ts j.tid o
